@@ -10,6 +10,12 @@ mod chrony_poller;
 mod shm_writer;
 pub mod signal;
 pub mod thread_manager;
+#[cfg(feature = "verif-hooks")]
+pub mod verif_failpoint;
+#[cfg(feature = "verif-hooks")]
+pub use chrony_poller::verif_api as verif_chrony_poller;
+#[cfg(feature = "verif-hooks")]
+pub use shm_writer::verif_api as verif_shm_writer;
 
 use chrony_candm::reply::Tracking;
 
